@@ -121,6 +121,21 @@ CLAIMED = {
                 "widening (12 states), which can only add paths.",
         "design_ref": "DESIGN.md section 3 / C08, rule R2",
     },
+    "C13": {
+        "technique": "typestate abstract interpretation of the put pipelines (swap / swap-back pairing with argument "
+                     "identity, flag-iff-alias rule), structural guard rules at the three retire sites, sibling "
+                     "agreement of a decision tree, allocator-accounting typestate and who-may-write rule",
+        "text": "Decides five structural clauses: blocking puts (put_varm, getput_vard) undo every in-place byte swap "
+                "of the user buffer with the identical element count and size on every path to a return; the "
+                "nonblocking posts record NC_REQ_BUF_BYTE_SWAP exactly when the user buffer itself is handed on with a "
+                "swap pending; the three retire sites test that flag and swap back (buf, nelems, varp->xsz) of the same "
+                "request; the four put paths decide in-place swapping by the same tree (hint off / on / size threshold); "
+                "attached-buffer accounting (NC_EINSUFFBUF test dominates allocation, failed pack releases the slot, "
+                "every release reaches abuf_coalesce, size_used has only the listed writers). It does not decide that "
+                "a read touches exactly the selected bytes.",
+        "note": "MPI calls and allocations succeed; read requests never own attached-buffer space (bget does not exist).",
+        "design_ref": "DESIGN.md section 3 / C13",
+    },
 }
 
 NA_REASON = {
